@@ -416,7 +416,7 @@ def _simple_or_rows_display(v, max_items=8) -> bool:
     """a tuple display of names / attributes / constants, or of rows of those (a small table written in place)"""
     def simple(x):
         return isinstance(x, (ast.Name, ast.Attribute, ast.Constant)) or _signed_literal(x)
-    if not (isinstance(v, ast.Tuple) and 0 < len(v.elts) <= max_items):
+    if not (isinstance(v, (ast.Tuple, ast.List)) and 0 < len(v.elts) <= max_items):
         return False
     return all(simple(x) or (isinstance(x, ast.Tuple) and 0 < len(x.elts) <= 4 and all(simple(y) for y in x.elts)) for x in v.elts)
 
@@ -640,6 +640,17 @@ def _collapse_result_copies(fn: ast.FunctionDef) -> None:
                 break
             if changed:
                 break
+
+
+class _FoldDisplayIndex(ast.NodeTransformer):
+    """(a, b, c)[1] is b"""
+
+    def visit_Subscript(self, node):
+        self.generic_visit(node)
+        if isinstance(node.value, ast.Tuple) and isinstance(node.slice, ast.Constant) and isinstance(node.slice.value, int) \
+                and -len(node.value.elts) <= node.slice.value < len(node.value.elts) and not any(isinstance(x, ast.Starred) for x in node.value.elts):
+            return node.value.elts[node.slice.value]
+        return node
 
 
 class _PruneConstantIfExp(ast.NodeTransformer):
@@ -1138,15 +1149,34 @@ class Normalizer:
             # `if c: continue` at the top of a loop body guards the rest of the body by `not c`
             st = copy.copy(st)
             st.body = _continue_guards_to_ifs(st.body)
+        flt = getattr(self, "_iter_filters", None) or {}
+        if isinstance(st, ast.For) and isinstance(st.iter, ast.Name) and st.iter.id in flt and not st.orelse:
+            disp, var, ifs = flt[st.iter.id]
+            rows = [r for r in disp.elts]
+            if all(isinstance(r, ast.Tuple) for r in rows) and isinstance(st.target, ast.Tuple) and all(isinstance(t, ast.Name) for t in st.target.elts) \
+                    and all(len(r.elts) == len(st.target.elts) for r in rows):
+                out = []
+                for r in rows:
+                    test = ifs[0] if len(ifs) == 1 else ast.BoolOp(op=ast.And(), values=list(ifs))
+                    test = _SubstName({var: r}).visit(copy.deepcopy(test))
+                    test = _FoldDisplayIndex().visit(test)
+                    one = ast.For(target=copy.deepcopy(st.target), iter=ast.Tuple(elts=[copy.deepcopy(r)], ctx=ast.Load()), body=copy.deepcopy(st.body),
+                                  orelse=[], type_comment=None)
+                    guard = ast.copy_location(ast.If(test=test, body=[one], orelse=[]), st)
+                    ast.fix_missing_locations(guard)
+                    out.extend(self._stmt(guard, cls, depth))
+                return out
         if isinstance(st, ast.For):
             # a module-level constant tuple of constants (a table of names), and `zip` of two displays of equal length: the display itself
             disp = self._display_of(st.iter, binds)
             if disp is not None and disp is not st.iter:
                 st = copy.copy(st)
                 st.iter = disp
+        _prev_binds = dict(binds)
         for n in ast.walk(st) if not isinstance(st, (ast.For, ast.While, ast.If, ast.With, ast.Try)) else []:
             if isinstance(n, ast.Name) and isinstance(n.ctx, (ast.Store, ast.Del)):
                 binds.pop(n.id, None)
+                (getattr(self, "_iter_filters", None) or {}).pop(n.id, None)
         if isinstance(st, ast.Assign) and len(st.targets) == 1 and isinstance(st.targets[0], ast.Name):
             v = st.value
             if (isinstance(v, ast.Call) and (A.dotted(v.func) or "") in ("chain", "itertools.chain") and not v.keywords) or \
@@ -1154,6 +1184,18 @@ class Normalizer:
                 binds[st.targets[0].id] = v
             elif isinstance(v, ast.Name) and v.id in binds:
                 binds[st.targets[0].id] = binds[v.id]       # a plain copy of such a name denotes the same display
+            elif isinstance(v, (ast.ListComp, ast.GeneratorExp)) and len(v.generators) == 1 and isinstance(v.generators[0].iter, ast.Name) \
+                    and v.generators[0].iter.id in _prev_binds and isinstance(_prev_binds[v.generators[0].iter.id], (ast.Tuple, ast.List)) \
+                    and isinstance(v.generators[0].target, ast.Name) and isinstance(v.elt, ast.Name) and v.elt.id == v.generators[0].target.id \
+                    and v.generators[0].ifs and not any(isinstance(n, (ast.Call, ast.NamedExpr)) for f in v.generators[0].ifs for n in ast.walk(f)):
+                # xs = [x for x in xs if p(x)] over a display written in place: remembered as (display, variable, filters); a loop over it
+                # is the loop over the display with the filters as a guard
+                flt = getattr(self, "_iter_filters", None)
+                if flt is None:
+                    flt = self._iter_filters = {}
+                flt[st.targets[0].id] = (copy.deepcopy(_prev_binds[v.generators[0].iter.id]), v.generators[0].target.id, copy.deepcopy(v.generators[0].ifs))
+                binds.pop(st.targets[0].id, None)
+                return [st]
         # setattr(obj, "name", v) with a literal identifier is the assignment obj.name = v
         if isinstance(st, ast.Expr) and isinstance(st.value, ast.Call) and isinstance(st.value.func, ast.Name) and st.value.func.id == "setattr" \
                 and len(st.value.args) == 3 and not st.value.keywords and isinstance(st.value.args[1], ast.Constant) \
